@@ -33,13 +33,13 @@ theorem closedRetry_ok {s : St} (hi : Inv s) (c : Nat) (hcl : (s.conns c).cl = .
     Inv (closedRetry s c) ∧ (∀ i, i ≠ c → (closedRetry s c).conns i = s.conns i) ∧
     ((closedRetry s c).conns c).brCreated = (s.conns c).brCreated ∧
     ((closedRetry s c).conns c).brDispatch = (s.conns c).brDispatch ∧
-    ((closedRetry s c).conns c).brWalk = (s.conns c).brWalk := by
+    ((closedRetry s c).conns c).brWalk = (s.conns c).brWalk ∧ ((closedRetry s c).conns c).phase = .closing := by
   obtain ⟨hp, h1, h2, h3, h4, h5⟩ := (hi.conn c).closedRetry hcl hph _ rfl
   have hfix := hi.fix.1
   have hat : (closedRetry s c).conns c = { s.conns c with cl := .retry } := by simp [closedRetry, hfix]
   have hot : ∀ i, i ≠ c → (closedRetry s c).conns i = s.conns i := fun i h => by simp [closedRetry, h]
   have hnj : c ∉ s.jobs := fun h => by have := (hi.job c).mp h; rw [hcl] at this; cases this
-  refine ⟨⟨hi.fix, fun i => ?_, fun x hx => ?_, ?_, fun x => ?_⟩, hot, ?_, ?_, ?_⟩
+  refine ⟨⟨hi.fix, fun i => ?_, fun x hx => ?_, ?_, fun x => ?_⟩, hot, ?_, ?_, ?_, ?_⟩
   · by_cases h : i = c
     · subst h; rw [hat]; exact hp
     · rw [hot i h]; exact hi.conn i
@@ -53,7 +53,7 @@ theorem closedRetry_ok {s : St} (hi : Inv s) (c : Nat) (hcl : (s.conns c).cl = .
     by_cases h : x = c
     · subst h; rw [hat]; simp
     · rw [hot x h]; simp [h]; exact hi.job x
-  all_goals (rw [hat])
+  all_goals (rw [hat]; try exact hph)
 
 theorem closedDone_ok {s : St} (hi : Inv s) (c : Nat) (hh : s.halt = false)
     (hcl : (s.conns c).cl = .running) (hph : (s.conns c).phase = .closedOk) :
